@@ -10,12 +10,27 @@ mkdir "$TMP/RBQL"
 cd "$TMP/RBQL"
 export PYTHONPATH="./rbql-py"
 export PYTHONDONTWRITEBYTECODE=1
+export PYTHONHASHSEED=0
 /venv/bin/python test/test_csv_utils.py --create_big_csv_table speed_test.csv >/dev/null 2>&1
+# The JSON-driven suites stop at their first failing case (two cases fail on the unchanged tree under Python 3.12:
+# ast.Index is gone). In this scratch copy only, let them run every case and print the names of the failing ones.
+/venv/bin/python - <<'PY'
+import re
+for path, call in (('test/test_csv_utils.py', 'self.process_test_case(tmp_tests_dir, test)'), ('test/test_rbql.py', 'self.process_test_case(test)'), ('test/test_rbql_pandas.py', 'self.process_test_case(test)')):
+    s = open(path).read()
+    pat = re.compile(r'^( +)' + re.escape(call) + r'$', re.M)
+    def rep(m):
+        i = m.group(1)
+        return (i + 'try:\n' + i + '    ' + call + '\n' + i + 'except Exception as _e:\n' + i + "    print('JSONCASE-FAIL', '" + path + "', test.get('test_name'), type(_e).__name__)")
+    s2, n = pat.subn(rep, s)
+    open(path, 'w').write(s2)
+PY
 for m in test.test_csv_utils test.test_rbql test.test_rbql_sqlite test.test_rbql_pandas test.test_mad_max; do
   out=$(timeout 600 /venv/bin/python -W ignore -m unittest $m 2>&1)
   rc=$?
   echo "PY $m rc=$rc $(echo "$out" | grep -E '^(Ran|OK|FAILED)' | tr '\n' ' ')"
   echo "$out" | grep -E '^(ERROR|FAIL):' | sort | sed 's/^/   /'
+  echo "$out" | grep -E '^JSONCASE-FAIL' | sort | sed 's/^/   /'
 done
 if [ "$NOJS" != "--no-js" ]; then
   /venv/bin/python test/test_csv_utils.py --create_random_csv_table random_tmp_table.txt >/dev/null 2>&1
